@@ -866,6 +866,11 @@ impl Allocator {
                     Ok(self.mk_node(ObjectType::SmallAtom, new_val as usize))
                 } else {
                     let start = self.u8_vec.len();
+                    // these bytes are copied onto the heap, so they count
+                    // towards the heap limit like any other new atom
+                    if start + self.ghost_heap + substr.len() > self.heap_limit {
+                        return Err(EvalErr::OutOfMemory);
+                    }
                     let end = start + substr.len();
                     self.u8_vec.extend_from_slice(substr);
                     let idx = self.atom_vec.len();
